@@ -84,6 +84,15 @@ def xform_cases(ctx, rng):
         kinds = ["rect", "para", "persp", "persp"] if f < 4 else ["rect", "para", "near", "near"]
         ks = rng.choice(kinds); kd = rng.choice(kinds)
         pairs.append(dict(src=quad(ks, f), dst=quad(kd, f), f=f, m=rng.choice([1, 2, 4, 4, 8] if not ctx.quick else [1, 2, 4])))
+    # the weakest perspective this model's 32-bit arithmetic can state exactly: a small square with one corner displaced by 1/1024
+    # pixel (a tolerance in the test for "affine" shows as an error of about 1e-3 pixel at that corner, 1000 times the accepted 1e-6)
+    # (a quadrilateral of 1/32 pixel: the exact reference needs denominators below 2^27)
+    F, S = 1024, 32
+    sq = [0, 0, S, 0, S, S, 0, S]
+    for a, b in ((1, 0), (0, 1), (1, 1), (-1, 0), (0, -1), (-1, 1)):
+        q = [0, 0, S, 0, S + a, S + b, 0, S]
+        pairs.append(dict(src=sq, dst=q, f=F, m=1))
+        pairs.append(dict(src=q, dst=sq, f=F, m=1))
     out = []
     step = 2000
     for lo in range(0, len(pairs), step):
